@@ -3,7 +3,9 @@
    rules are coq/Valid/ValidRules.v, the order-free specification forms are
    coq/Spec/ValidSpec.v. *)
 From PyGql Require Import Valid.ValidOverlap Spec.ValidSpec Proofs.ValidCloseProofs
-     Proofs.ValidGraphProofs Proofs.ValidVarProofs Proofs.ValidPermProofs.
+     Proofs.ValidGraphProofs Proofs.ValidVarProofs Proofs.ValidPermProofs
+     Proofs.ValidUnusedProofs Proofs.ValidSelPermProofs Proofs.ValidUniqueProofs
+     Spec.ValidValueSpec Proofs.ValidValueProofs.
 From Coq Require Import Permutation.
 
 (* The closure iteration (repaired _flatten_fragments, and the reachable set
@@ -24,22 +26,14 @@ Theorem C06_rule_equiv_NoFragmentCycles : forall s d,
 Proof. exact r14_equiv. Qed.
 Print Assumptions C06_rule_equiv_NoFragmentCycles.
 
-(* Full statement for NoUnusedFragments: the implementation counts a spread
-   anywhere as a use, so it agrees with reachability from operations only
-   jointly with the cycle rule. *)
-Definition C06_rule_equiv_NoUnusedFragments_joint_full : Prop :=
-  forall s d, NoDup (frag_names d) -> r14_no_fragment_cycles s d = Ok [] ->
-              (r12_no_unused_fragments s d = [] <-> spec_no_unused_fragments d).
-
-(* Proved part: the rule is silent exactly when every defined fragment is
-   spread by some definition, and it is silent whenever every fragment is
-   reachable from an operation. Missing: silent and acyclic implies reachable
-   from an operation (needs the finiteness argument on backward chains). *)
+(* NoUnusedFragments: the implementation counts a spread anywhere as a use, so
+   it agrees with reachability from operations jointly with the cycle rule:
+   with unique fragment names and NoFragmentCycles silent, the rule is silent
+   exactly when every defined fragment is reachable from an operation. *)
 Theorem C06_rule_equiv_NoUnusedFragments_joint : forall s d,
-  (r12_no_unused_fragments s d = [] <->
-   forall f, defined_fragment d f -> exists df, In df (doc_defs d) /\ sels_spread (def_sels df) f)
-  /\ (spec_no_unused_fragments d -> r12_no_unused_fragments s d = []).
-Proof. intros s d. split; [apply r12_silent_iff|apply r12_spec_implies_silent]. Qed.
+  NoDup (frag_names d) -> r14_no_fragment_cycles s d = Ok [] ->
+  (r12_no_unused_fragments s d = [] <-> spec_no_unused_fragments d).
+Proof. exact r12_joint. Qed.
 Print Assumptions C06_rule_equiv_NoUnusedFragments_joint.
 
 (* NoUndefinedVariables / NoUnusedVariables over the transitive closure:
@@ -62,6 +56,28 @@ Theorem C06_rule_equiv_KnownFragmentNames : forall s d,
   r11_known_fragment_names s d = [] <-> spec_known_fragment_names d.
 Proof. exact r11_equiv. Qed.
 Print Assumptions C06_rule_equiv_KnownFragmentNames.
+
+(* ValuesOfCorrectType at a position of known input type (the context the
+   TypeInfo model computes for arguments, list items, input object fields and
+   variable defaults): no error below that position exactly when the literal
+   is coercible to the type -- null only where nullable, lists item by item
+   one level at a time ([[1]] is not an [Int]), a single value for a list,
+   input objects field by field with all required fields, enum values by
+   name, scalar literal kinds. Hypotheses: input object fields of the schema
+   have input types; no `T!!`. *)
+Theorem C06_rule_equiv_ValuesOfCorrectType_position : forall s,
+  wf_inputs s ->
+  forall v t, is_input_type s t = true -> wf_tref t ->
+              (check_value s (Some t) v = [] <-> coercible s t v).
+Proof. exact check_value_spec. Qed.
+Print Assumptions C06_rule_equiv_ValuesOfCorrectType_position.
+
+(* UniqueFragmentNames is silent exactly when the fragment names are pairwise
+   distinct: it discharges the hypothesis of the fragment graph theorems. *)
+Theorem C06_rule_equiv_UniqueFragmentNames : forall d,
+  r10_unique_fragment_names d = [] <-> NoDup (frag_names d).
+Proof. exact r10_equiv. Qed.
+Print Assumptions C06_rule_equiv_UniqueFragmentNames.
 
 Theorem C06_rule_equiv_LoneAnonymousOperation : forall d,
   r03_lone_anonymous d = [] <-> spec_lone_anonymous d.
@@ -87,6 +103,18 @@ Theorem C06_perm_definitions_partial : forall s d d',
   (r11_known_fragment_names s d = [] <-> r11_known_fragment_names s d' = []).
 Proof. exact perm_definitions. Qed.
 Print Assumptions C06_perm_definitions_partial.
+
+(* The same rules are invariant under reordering the selections of every
+   selection set and the arguments of every field and directive, at every
+   depth (doc_perm relates the two documents definition by definition). *)
+Theorem C06_perm_selections_arguments_partial : forall s d d',
+  doc_perm d d' -> NoDup (frag_names d) -> NoDup (op_key_list d) ->
+  (r14_no_fragment_cycles s d = Ok [] <-> r14_no_fragment_cycles s d' = Ok []) /\
+  (r16_no_undefined_variables s d = Ok [] <-> r16_no_undefined_variables s d' = Ok []) /\
+  (r17_no_unused_variables s d = Ok [] <-> r17_no_unused_variables s d' = Ok []) /\
+  (r11_known_fragment_names s d = [] <-> r11_known_fragment_names s d' = []).
+Proof. exact perm_selections_arguments. Qed.
+Print Assumptions C06_perm_selections_arguments_partial.
 
 (* non-vacuity: a document with a transitive fragment chain defined in an
    order the unrepaired single pass got wrong, and a cyclic one *)
